@@ -148,6 +148,8 @@ def encode_classic(rng, t, dir_va, lay=None):
     for e in datas:
         al = rng.choice([4, 4, 8, 16])
         padn = (-(off + len(blobs))) % al
+        if getattr(e, "odd", False):
+            padn += 1                    # the data at an ODD offset (GroupResource::new: Misaligned; plain data: fine)
         blobs += bytes(padn)
         boff[id(e)] = off + len(blobs)
         lay.blobs.append((off + len(blobs), len(e.content)))
@@ -249,10 +251,14 @@ def rand_images(rng, k):
     return out
 
 
-def typical_tree(rng):
+LAST_ODD = [False]
+
+
+def typical_tree(rng, allow_odd=False):
     """type / name / language tree with manifest, version, icon and cursor groups.
     Returns (tree, groups) with groups = list of (kind, name, ico file bytes or None)"""
     top, groups = [], []
+    LAST_ODD[0] = False
     lang = lambda: rng.choice([1033, 0, 1031])
     next_id = [1]
     for kind, rt, rtg in ((1, 3, 14), (2, 1, 12)):
@@ -275,6 +281,12 @@ def typical_tree(rng):
                 exact = all(s == len(d) for s, (_, d) in zip(sizes, images))
             blob = group_blob(kind, images, first, sizes)
             gnode = RDir([(lang(), RData(blob, 0))], 0)
+            if allow_odd and rng.random() < 0.15:
+                # the group header stored at an odd offset (found uncovered by the line-coverage run of the streams);
+                # the abstract tree does not know where data is stored: such cases carry no `tree=` specification
+                gnode.entries[0][1].odd = True
+                exact = False
+                LAST_ODD[0] = True
             if rng.random() < 0.25:
                 # group directories that are NOT of the resource compiler's shape (Spec: `Node.groups`, `parseGroup`)
                 exact = False
@@ -532,17 +544,20 @@ def gen_wellformed(rng, tier):
     for i in range(n):
         typical = rng.random() < 0.5
         if typical:
-            t, groups = typical_tree(rng)
+            t, groups = typical_tree(rng, allow_odd=True)
         else:
             t, groups = rand_tree(rng, rng.choice([1, 2, 3, 4])), []
+        odd = typical and LAST_ODD[0]
         dir_va = rng.choice([0, 0x2000, 0x3000, 0x10000])
-        canonical = rng.random() < 0.5
+        canonical = rng.random() < 0.5 and not odd
         sec = encode_canonical(t, dir_va) if canonical else encode_classic(rng, t, dir_va)[0]
         tt = tree_text(t)
 
         def mk(pre, t=t, groups=groups, tt=tt, canonical=canonical):
             ops = std_ops(pre, "ok") + lookup_ops(rng, t, pre, tier) + helper_ops(pre, groups)
             suffix = " tree=" + tt + (" canon=1" if canonical else "")
+            if odd:
+                return [o.replace(" want=ok", "") for o in ops]
             return [o + suffix for o in ops]
         if rng.random() < 0.5:
             cases.append(mk("res_raw 0x%x %s" % (dir_va, hx(sec))))
